@@ -864,7 +864,18 @@ func soak(run *hx.Run, seed uint64, dur time.Duration) {
 				}
 			}()
 			for atomic.LoadInt32(&stop) == 0 {
-				switch r.Intn(3) {
+				switch r.Intn(4) {
+				case 3: // remove the peer that is currently last in a bin, then add into the same bin
+					b := r.Intn(maxBins)
+					if bp := ps.BinPeers(uint8(b)); len(bp) > 0 {
+						ps.Remove(bp[len(bp)-1])
+						for t := 0; t < 8; t++ {
+							if a := pool[r.Intn(len(pool))]; inPool[a.ByteString()] == b {
+								ps.Add(a)
+								break
+							}
+						}
+					}
 				case 0:
 					ps.Add(pool[r.Intn(len(pool))])
 				case 1:
@@ -959,7 +970,7 @@ func main() {
 		return
 	}
 
-	for _, jc := range corpus() {
+	for _, jc := range append(corpus(), corpusTail()...) {
 		e := newExec(run, jc.MaxBins, unhex(jc.Base))
 		for _, o := range jc.Ops {
 			e.do(o)
@@ -976,6 +987,12 @@ func main() {
 		e := newExec(run, maxBins, base)
 		n := 8 + r.Intn(run.N(22, 40))
 		for i := 0; i < n; i++ {
+			if r.Chance(1, 8) {
+				if o, ok := g.tailEach(e); ok {
+					e.do(o)
+					continue
+				}
+			}
 			e.do(g.op(e.ref))
 		}
 		e.finish("random")
